@@ -220,6 +220,12 @@ for k in TYPES['volume']:
 for k in TYPES['mass']:
     rel('const:m_e[%s]' % k, 'const.m_e(%r)' % k, '5.48579909070e-4 * %s / %s' % (U(k), U('amu')), u(k), u('amu'))
     rel('const:m_p[%s]' % k, 'const.m_p(%r)' % k, '1.007276466879 * %s / %s' % (U(k), U('amu')), u(k), u('amu'))
+import importlib.util as _ilu
+_sp = _ilu.spec_from_file_location('spec_units', __file__.replace('contracts/C12_units.py', 'spec/units.py'))
+_su = _ilu.module_from_spec(_sp)
+_sp.loader.exec_module(_su)
+for k in sorted(set(_su.TYPE_OF) | set(type_dict)):
+    DEFS.append(('type:%s' % k, 'const.type_dict.get(%r) == %r' % (k, _su.TYPE_OF.get(k))))
 lemma('definitions', P, forall=dict(), prove=DEFS)
 
 # ---- spectroscopic helpers: mutually inverse ---------------------------------
